@@ -60,6 +60,8 @@ func GenDAG(r *rand.Rand, id string, o GenOpts) *vexec.CaseSpec {
 		if o.Preconds && r.Intn(100) < 25 {
 			s.HasPrecond = true
 			s.PrecondUnmet = r.Intn(2) == 0
+			s.PrecondN = 1 + r.Intn(3)
+			s.PrecondBadAt = r.Intn(s.PrecondN)
 		}
 		spec.Steps = append(spec.Steps, s)
 	}
@@ -94,7 +96,7 @@ func ShapeSig(spec *vexec.CaseSpec) string {
 		d := append([]string(nil), s.Depends...)
 		sort.Strings(d)
 		parts = append(parts, fmt.Sprintf("%s<%s|%v%v|r%d.%d|p%v%v|f%d|rep%v|it%v|nv%v|sf%v", s.Name, strings.Join(d, ","),
-			s.ContFail, s.ContSkip, s.RetryLimit, s.RetryMs, s.HasPrecond, s.PrecondUnmet, s.FailFirst, s.Repeat, s.IgnoreTerm, s.Never, s.SetupFail))
+			s.ContFail, s.ContSkip, s.RetryLimit, s.RetryMs, s.HasPrecond, fmt.Sprint(s.PrecondUnmet, s.PrecondN, s.PrecondBadAt), s.FailFirst, s.Repeat, s.IgnoreTerm, s.Never, s.SetupFail))
 	}
 	sort.Strings(parts)
 	var hs []string
